@@ -2,6 +2,7 @@
 // observing operation is applied twice in a row; answers must be equal, sqlite3_total_changes must not move, the
 // canonical dump must be unchanged; for an on-disk copy of the state database_exists / load_database /
 // create_or_load_database from a second handle must leave the files byte-identical.
+#include <filesystem>
 #include <sys/stat.h>
 #include <unistd.h>
 
@@ -23,6 +24,27 @@ std::string file_digest(const std::string& dir)
         out += std::string(f) + ":" + std::to_string((long long)st.st_size) + ":" + hash128(read_file(dir + f)) + " ";
     }
     return out;
+}
+
+// every entry below a directory with its size (a refused load may not leave so much as an empty file behind)
+std::string tree_listing(const std::string& dir)
+{
+    std::vector<std::string> v;
+    std::error_code ec;
+    for (auto it = std::filesystem::recursive_directory_iterator(dir, ec); !ec && it != std::filesystem::recursive_directory_iterator(); it.increment(ec))
+        v.push_back(it->path().string().substr(dir.size()) + (it->is_directory() ? "/" : ":" + std::to_string((long long)it->file_size())));
+    std::sort(v.begin(), v.end());
+    std::string out;
+    for (auto& x : v) out += x + " ";
+    return out;
+}
+// every loading / existence entry point, answers and exceptions swallowed
+void all_loaders(const std::string& dir)
+{
+    try { (void)eng::database_exists(dir); } catch (const std::exception&) {}
+    try { eng::engine_schema ls{}; auto d = eng::load_database(dir, ls); (void)d.uuid(); } catch (const std::exception&) {}
+    try { (void)eng::v2::engine_library::exists(dir); } catch (const std::exception&) {}
+    try { auto l = eng::v2::engine_library::load(dir); l.verify(); } catch (const std::exception&) {}
 }
 
 // every observing operation of database / crate / track, with existing and non-existing arguments
@@ -170,6 +192,29 @@ struct Dom : CompositeBase
                 db.verify();
             }
             if (file_digest(dir) != f0) { ok = false; viol("create_or_load_modified_files", "files changed by create_or_load_database() + verify(): " + f0 + " -> " + file_digest(dir)); }
+            // every loader and existence test, accepted or refused (the 2.x library object refuses a legacy directory), on the library's directory
+            {
+                const std::string t0 = tree_listing(dir);
+                all_loaders(dir);
+                all_loaders(dir);
+                if (file_digest(dir) != f0 || tree_listing(dir) != t0) { ok = false; viol("loaders_modified_files", "directory changed by the loaders / existence tests: " + t0 + " -> " + tree_listing(dir)); }
+            }
+            // and, once per schema, on directories that hold no library at all: a refused load is still an observation
+            if (cid.substr(cid.find('|') + 1).empty())
+            {
+                for (int kind = 0; kind < 3; ++kind)
+                {
+                    const std::string nd = dir + ".none" + std::to_string(kind);
+                    std::filesystem::create_directories(kind == 1 ? nd + "/Database2" : nd);
+                    if (kind == 2) write_file(nd + "/p.db", "");
+                    const std::string t0 = tree_listing(nd);
+                    all_loaders(nd);
+                    all_loaders(nd);
+                    if (tree_listing(nd) != t0) { ok = false; viol("refused_load_modified_directory", std::string("directory without a library (") + (kind == 0 ? "empty" : kind == 1 ? "empty Database2 directory" : "p.db only") + ") changed by the loaders / existence tests: " + t0 + " -> " + tree_listing(nd)); }
+                    std::filesystem::remove_all(nd);
+                    a.count("no_library_directories_probed");
+                }
+            }
         }
         catch (const std::exception& e)
         {
@@ -234,7 +279,7 @@ int run(const Options& o)
         "state the whole observing surface is applied twice in a row: every track getter and snapshot(), is_valid/id of live and stale handles, every crate and database listing and lookup with "
         "existing and non-existing arguments, verify(), uuid(), version_name(), directory(), db() of handles, and on 2.x the table API reads (track_table get / exists / all_ids / every per-column "
         "getter / find_id_by_path, playlist_table get / exists / all_ids / root_ids / child_ids / descendant_ids / find_*, playlist_entity_table get / get_for_list / track_ids, "
-        "information_table get). Oracle: both answers equal, sqlite3_total_changes unchanged, canonical dump unchanged; on an on-disk copy of the state, database_exists(), load_database() + the "
+        "information_table get). Oracle: both answers equal, sqlite3_total_changes unchanged, canonical dump unchanged; on an on-disk copy of the state, database_exists(), every loader and existence test of both public loading interfaces (accepted or refused; also on an empty directory, an empty Database2 directory and a p.db-only directory, whose recursive listing must not change), load_database() + the "
         "same observers twice, and create_or_load_database() + verify() from fresh handles leave size and hash of m.db / p.db / Database2/m.db unchanged and no journal or WAL file behind.";
     c["exhaustive"] = exhaustive;
     Json b = Json::object();
